@@ -1,5 +1,6 @@
 """C04 - the reported best is the true best of everything kept and never worsens.
-Part 1 (this file, bounded runs from DemeTree(config)): tree / deme best vs. a brute-force scan of all histories after every
+Budget-prefix clause: minimize() with two symbolic budgets N1 < N2 (same seed): the smaller run's evaluations are a prefix of the larger
+run's and the result never gets worse.  Part 1 (this file, bounded runs from DemeTree(config)): tree / deme best vs. a brute-force scan of all histories after every
 metaepoch, never-worsening, best == best value ever evaluated (engines other than the local optimiser)."""
 from .trun import run_cases, h_run
 from .tstep import TREE_BOUNDS as BOUNDS, TREE_OUTSIDE as OUTSIDE, TREE_ASSUMPTIONS as ASSUMPTIONS
@@ -64,6 +65,9 @@ def cases(tier):  # noqa: F811
     cs.append(dict(name="order.n2.w3", fn=h_order, params=dict(n=2, wrappers=3), profile="fp", budget_s=900))
     cs.append(dict(name="selection_keeps_best.fp.n2.k1", fn=h_select, params=dict(n=2, k_elites=1), profile="fp", budget_s=900))
     cs.append(dict(name="selection_keeps_best.real.n3.k1", fn=h_select, params=dict(n=3, k_elites=1), profile="real", budget_s=1500, weight=10))
+    from .c03 import h_prefix
+    cs.append(dict(name="budget_prefix.sym", fn=h_prefix, params=dict(nmax=40 if tier == "quick" else 100), profile="fp", budget_s=2400, max_paths=100000,
+                   weight=40))
     if tier == "thorough":
         cs.append(dict(name="order.n4.w0", fn=h_order, params=dict(n=4, wrappers=0), profile="fp", budget_s=3000, weight=40))
         cs.append(dict(name="de_keeps_best.n4", fn=h_de, params=dict(n=4), profile="fp", budget_s=3000, weight=30))
